@@ -8,6 +8,7 @@ Wn == [k |-> "wn", j |-> -1]
 Hn(n) == [k |-> "hn", js |-> Pre(<<-1, 0, -2>>, n)]
 Sum(ps) == [k |-> "sum", parts |-> ps]
 Cp(ps, cs) == [k |-> "cp", parts |-> ps, axis |-> 1, cs |-> cs]
+CpA(ps, cs, ax) == [k |-> "cp", parts |-> ps, axis |-> ax, cs |-> cs]          \* change-point along another axis than the first (ax = d)
 CONSTANT Deep        \* FALSE: the quick family; TRUE (thorough tier): more point sets and a second data vector
 XSets == { << <<0>>, <<2>> >>, << <<0>>, <<1>> >>, << <<1>> >>, << <<0, 1>>, <<1, 0>> >> }
          \cup (IF Deep THEN { << <<0>>, <<-1>> >>, << <<-1>>, <<1>> >>, << <<2>> >>, << <<0, 0>>, <<1, 1>> >>, << <<1, 0>>, <<0, -1>> >> } ELSE {})
@@ -19,7 +20,8 @@ Sigs(n) == { Diag(Pre(<<<<0, 1>>, <<0, 1>>, <<0, 1>>>>, n)), Diag(Pre(<<<<1, 4>>
         \cup (IF n = 3 THEN { << <<<<1, 1>>, <<1, 2>>, <<0, 1>>>>, <<<<1, 2>>, <<1, 1>>, <<0, 1>>>>, <<<<0, 1>>, <<0, 1>>, <<1, 4>>>> >> } ELSE {})
 \* a change-point kernel has a position-dependent prior variance (amplitudes 1 and 4 on the two sides); with three kernels the first,
 \* the middle and the last region are weighted differently
-Kernels(d, n) == { Se1(d), Se2(d), Rq1(d), Sum(<<Se1(d), Wn>>), Sum(<<Rq1(d), Hn(n)>>) } \cup (IF n = 2 THEN {Sum(<<Cp(<<Se1(d), Se2(d)>>, <<1>>), Wn>>), Sum(<<Cp(<<Se1(d), Se2(d), Se1(d)>>, <<0, 1>>), Wn>>)} ELSE {})
+Kernels(d, n) == { Se1(d), Se2(d), Rq1(d), Sum(<<Se1(d), Wn>>), Sum(<<Rq1(d), Hn(n)>>) } \cup (IF n = 2 THEN {Sum(<<Cp(<<Se1(d), Se2(d)>>, <<1>>), Wn>>), Sum(<<Cp(<<Se1(d), Se2(d), Se1(d)>>, <<0, 1>>), Wn>>),
+                                        Sum(<<CpA(<<Se1(d), Se2(d)>>, <<1>>, d), Wn>>)} ELSE {})
 Means(d) == { [k |-> "const", th |-> <<2>>], [k |-> "lin", th |-> Pre(<<1, 2, -1>>, 1 + d)], [k |-> "quad", th |-> Pre(<<1, 2, -1, 1, 1>>, 1 + 2 * d)] }
 Queries(d) == IF d = 1 THEN << <<1>>, <<2>>, <<-1>> >> ELSE << <<1, 0>>, <<0, 0>>, <<2, 1>> >>
 CONSTANT Focus       \* "all" | "se" (only the problems with derivative predictions: squared-exponential kernel, <= 2 data points)
